@@ -50,6 +50,19 @@ CHECKS["C03"] = ("TLC-checked exact contraction semantics of the six tensor form
 CHECKS["C04"] = ("TLC-checked relational transform specifications (Transforms.tla, reference transforms preserve dense + canonical form) + trace validation of measured outputs",
    "Transforms.tla gives exact integer reference transforms (flip, normalise on axis inputs, permute, pad, mode products, projections) and TLC checks that each preserves the dense tensor, establishes its canonical form and is idempotent; acceptance predicates on measured outputs (dense equal to the spec's exact dense within 2e-5, unit columns, non-negative weights/summaries, padded ranks with kept boundary, aligned permutation where the optimum is unique, orthonormal projections). Every configuration incl. the degenerate inputs (zero / zero-mean columns, negative weights, rank 1) goes through cp_normalize, tucker_normalize, parafac2_normalise, cp_flip_sign, cp_permute_factors, pad_tt_rank, cp/tucker_mode_dot (matrix/vector, keep_dim, copy), CP->PARAFAC2 and SVD compress/decompress; TransformsTrace.tla judges each.",
    "Outputs are floating point: compared quantised with the named tolerances of Transforms.tla; dense reconstructions of outputs are computed by numpy einsum in the harness; deterministic 1-in-6 thinning of large option products in the quick tier.", "DESIGN.md 5/C04")
+
+CHECKS["C05"] = ("TLC-checked SVD contract on generalised permutation matrices (SVDContract.tla: clamp, shapes, exact spectrum, Eckart-Young optimum proven optimal against competitors) + trace validation of every method/option",
+   "SVDContract.tla defines the n_eigenvecs clamp, the documented output shapes per method, the exact spectrum and best rank-k error of generalised permutation matrices (TLC checks in all 27 184 matrix states that A^T A is diagonal, the Eckart-Young value telescopes, is optimal against every competitor and attained) and the obligations per option (sign resolution on U or V without changing the product, non-negativity, randomized exact only when rank is covered). A stratified sample of matrices x every option combination (3 built-in methods + callable, k from 1 past max and None, flip off/U/V, non_negative off/nndsvda/nndsvd, interface and direct calls) is executed and SVDContractTrace.tla judges shapes, spectrum, orthonormality, error, sign canonicity and non-negativity; the thorough tier adds a LAPACK-measured tier on dense matrices up to 6x8.",
+   "Exact tier: quantised comparisons with the tolerances named in the spec (1e-6 on S, 2e-6 on error^2, 1e-8 on orthonormality); measured tier trusts numpy.linalg.svd as instrument; vectors beyond len(S) are not obliged; known finding F-05a (symeig_svd on rank-deficient input).", "DESIGN.md 5/C05")
+CHECKS["C09"] = ("TLC-checked discarded-tail arithmetic and rank clipping of Tucker / TT / TT-matrix / TR (SVDDecomp.tla) on matching tensors with exactly known spectra + trace validation",
+   "SVDDecomp.tla defines, from the spectrum of every (sequential) unfolding and a rank vector, the expected clipped ranks and the bounds max tail <= err^2 <= sum of tails (TR bounds derived in the module header); TLC checks on the spec that matching tensors (non-zeros pairwise different in every coordinate) have generalised-permutation unfoldings, that the sequential-truncation model error lies within the bounds and that covering ranks give zero. Every rank configuration (1 to beyond the mode sizes, all TR starting modes, requests that must raise) runs on seeded matching tensors with the exact SVD methods and HOOI 0/1/50 iterations; SVDDecompTrace.tla judges outcome, ranks, exactness and both bounds; the thorough tier adds measured spectra on dense tensors.",
+   "Exact tier on matching tensors (integer err^2); measured tier trusts numpy SVD of the unfoldings; slack J+2 quanta at 1e-6; TT-matrix orders 2 and 4 only.", "DESIGN.md 5/C09")
+CHECKS["C11"] = ("TLC-checked constraint-specification semantics (Constraints.tla: scalar/list/dict -> per-mode assignment or Reject, feasibility predicates proven against textbook definitions) + trace validation of validate_constraints and constrained_parafac",
+   "Constraints.tla transcribes the documented specification semantics; TLC checks on every enumerated specification (26 078 quick / 91 478 thorough) that the mapping is a function, that Reject holds exactly when two keywords share a mode, that an operational reading agrees under every processing order, and checks each feasibility predicate against textbook definitions on all small columns. Binding 1: every specification goes to validate_constraints per mode and to constrained_parafac: raised iff Reject, assigned kind/parameter equal the spec's on requested modes. Binding 2: accepted specifications x data x rank x init x (outer, inner) budgets run through constrained_parafac and ConstraintsTrace.tla judges the logged factor measurements against the feasibility predicate of the kind the spec assigns.",
+   "Binding 2 is sampled from VERIF_SEED; where the docs leave the scope open (whole factor vs column-wise) either reading is accepted; LinAlgError carries no obligation; tolerance 1e-6.", "DESIGN.md 5/C11")
+CHECKS["C16"] = ("TLC exhaustive model checking of RngStreams.tla (streams as (seed, consumption history)) + state-graph walk and random histories replayed on 70 seed-accepting entry points, validated by RngStreamsTrace.tla",
+   "RngStreams.tla models the global stream, generators and seeded calls; TLC checks SameSeedSameResult, TwinGeneratorsAgree, DeterministicNoSeed, ReseedReproducible and the action properties IntSeedLeavesGlobal / IntSeedLeavesGenerators / GenCallOwnStreamOnly on every interleaving of <= 6 operations, with as-found variants as violated witnesses. Every transition of the labelled state graph plus random histories are replayed on each of 70 real entry-point variants (random generators, randomly initialised CP / Tucker / PARAFAC2 / constrained CP / TR-ALS / sampled variants / TT-cross, randomized SVD, regressors, class wrappers) logging digests of the global state, generator states and results; the trace spec binds abstract streams/results to digests and rejects any disagreement.",
+   "Bit-identity required only where the property says so; single BLAS thread; exceptions count as outcomes and must reproduce; NumPy backend only.", "DESIGN.md 5/C16")
 NOT_YET = {}
 
 def main():
